@@ -12,10 +12,17 @@
    (1b) THE INVARIANT ITSELF, by induction over runs: C01_sync_runs_stay_legal / C01_async_runs_stay_legal - built from
    C01_initial_configuration_legal (default descent), C01_transition_effect (closed formula for one transition),
    C01_transition_preserves_legality (replacement lemma over the state tree) and C01_event_preserves_legality;
-   PARTIAL: transitions that target a HISTORY pseudo-state are outside the invariant theorems (their preservation is
-   decided by the correspondence: legality is evaluated inside Coq on every generated run), and transitions that
-   target the machine root break the invariant at HEAD (finding F5, kernel-checked witness below). *)
-From XSM Require Import Model.Macro Model.Snap Proofs.LegalP Proofs.ExecP Proofs.FaultP Proofs.StepP Proofs.DescentP Proofs.EffectP Proofs.PreserveP Proofs.InvariantP Proofs.SelectP.
+   (1c) HISTORY TARGETS INCLUDED: C01_sync_runs_stay_legal_h / C01_async_runs_stay_legal_h strengthen the invariant with
+   what the history store holds (every remembered list is the set of proper descendants of its parent in some legal
+   configuration, C01_history_store_invariant) and allow transitions that target history pseudo-states (deep and
+   shallow, recorded or never recorded, domain = the parent itself or any ancestor, compound or parallel): the combined
+   entry path is a tree below the domain (Proofs/TreeEntryP.v, HistoryP.v).  Former finding F34 - the history child of an
+   active parallel state targeted from inside it, found by the correspondence while this case was still outside the
+   theorems - is repaired in /repo; before the repair this theorem was false of the model.
+   PARTIAL: transitions that target the machine root break the invariant at HEAD (finding F5, kernel-checked witness
+   below); a history state whose default target is not a proper descendant of its parent, or whose parallel parent
+   declares a history state as `initial`, is outside the theorem (hist_static_ok; decided by the correspondence). *)
+From XSM Require Import Model.Macro Model.Snap Proofs.LegalP Proofs.ExecP Proofs.FaultP Proofs.StepP Proofs.DescentP Proofs.EffectP Proofs.PreserveP Proofs.InvariantP Proofs.SelectP Proofs.HistoryP Proofs.InvariantHP.
 From Coq Require Import Permutation.
 
 Theorem C01_legal_is_the_definition : forall m C, legal m C = true <-> Legal m C.
@@ -62,13 +69,65 @@ Print Assumptions C01_default_descent_legal.
    legal - on the sync engine and on the async engine (observed whenever its queue is drained). *)
 Theorem C01_sync_runs_stay_legal : forall m, wf m = true -> twf m = true -> good_initials m = true -> safe_targets m ->
   forall cx evs, snd (sync_start m (st_init cx)) = None -> Legal m (s_cfg (sync_run m cx evs)).
-Proof. exact sync_run_inv. Qed.
+Proof. exact InvariantP.sync_run_inv. Qed.
 Print Assumptions C01_sync_runs_stay_legal.
 
 Theorem C01_async_runs_stay_legal : forall m, wf m = true -> twf m = true -> good_initials m = true -> safe_targets m ->
   forall fuel cx evs, snd (async_start m (st_init cx)) = None -> Legal m (s_cfg (fst (async_run fuel m cx evs))).
-Proof. exact async_run_inv. Qed.
+Proof. exact InvariantP.async_run_inv. Qed.
 Print Assumptions C01_async_runs_stay_legal.
+
+(* ... and with transitions to history pseudo-states allowed (decidable conditions: wf, twf, good_initials,
+   safe_targets_hb); the invariant carried through the run is legality AND the consistency of the history store *)
+Theorem C01_sync_runs_stay_legal_h : forall m, wf m = true -> twf m = true -> good_initials m = true -> safe_targets_h m ->
+  forall cx evs, snd (sync_start m (st_init cx)) = None ->
+  Legal m (s_cfg (sync_run m cx evs)) /\ HistOK m (s_hist (sync_run m cx evs)).
+Proof. exact InvariantHP.sync_run_inv. Qed.
+Print Assumptions C01_sync_runs_stay_legal_h.
+
+Theorem C01_async_runs_stay_legal_h : forall m, wf m = true -> twf m = true -> good_initials m = true -> safe_targets_h m ->
+  forall fuel cx evs, snd (async_start m (st_init cx)) = None ->
+  Legal m (s_cfg (fst (async_run fuel m cx evs))) /\ HistOK m (s_hist (fst (async_run fuel m cx evs))).
+Proof. exact InvariantHP.async_run_inv. Qed.
+Print Assumptions C01_async_runs_stay_legal_h.
+
+Theorem C01_safe_targets_h_checkable : forall m, safe_targets_hb m = true -> safe_targets_h m.
+Proof. exact safe_targets_hb_ok. Qed.
+Print Assumptions C01_safe_targets_h_checkable.
+Theorem C01_safe_targets_is_special_case : forall m, safe_targets m -> safe_targets_h m.
+Proof. exact safe_targets_weaken. Qed.
+Print Assumptions C01_safe_targets_is_special_case.
+
+(* the steps: a completed transition to a history pseudo-state out of a legal configuration with a consistent history
+   store leaves a legal configuration ... *)
+Theorem C01_history_transition_preserves_legality : forall m, wf m = true -> good_initials m = true ->
+  forall eng pr t tgt ev s0 s1,
+  Legal m (s_cfg s0) -> HistOK m (s_hist s0) -> In (t_src t) (s_cfg s0) ->
+  tgt < size m -> is_history m tgt = true -> hist_static_ok m tgt ->
+  exec_external eng pr m t tgt ev s0 = (s1, None) -> Legal m (s_cfg s1).
+Proof. exact history_transition_legal. Qed.
+Print Assumptions C01_history_transition_preserves_legality.
+
+(* ... the history store is rewritten by _record_history only, which copies from the (legal) configuration the
+   transition starts in: completed or aborted, the store stays consistent *)
+Theorem C01_history_store_invariant : forall m eng pr t tgt ev s0,
+  Legal m (s_cfg s0) -> HistOK m (s_hist s0) -> HistOK m (s_hist (fst (exec_external eng pr m t tgt ev s0))).
+Proof. exact external_keeps_histok. Qed.
+Print Assumptions C01_history_store_invariant.
+
+(* ... and what entering a TREE of explicit states activates is, below each of its roots, a complete sub-configuration *)
+Theorem C01_tree_entry_legal : forall m, wf m = true -> good_initials m = true -> forall d l, d < size m ->
+  (forall x, In x l -> x < size m) -> (forall x, In x l -> is_history m x = false) ->
+  (forall x, In x l -> exists q, parent m x = Some q /\ (q = d \/ In q l)) ->
+  (forall x c c', In x l -> kind_of m x = KCompound -> In c (children m x) -> In c' (children m x) -> In c l -> In c' l -> c = c') ->
+  forall C Bs, Legal m C -> In d C -> l <> [] ->
+  (forall b, In b Bs -> In b (children m d)) -> (forall r, In r l /\ parent m r = Some d -> In r Bs) ->
+  (kind_of m d = KCompound -> (forall c, In c (children m d) -> In c Bs) /\
+                              (forall r r', In r l /\ parent m r = Some d -> In r' l /\ parent m r' = Some d -> r = r')) ->
+  (kind_of m d = KParallel -> forall b, In b Bs -> is_history m b = false -> In b l /\ parent m b = Some d) ->
+  Legal m (add_all (entered (S (size m)) m l) (kept m Bs C)).
+Proof. exact TreeEntryP.tree_entry_legal. Qed.
+Print Assumptions C01_tree_entry_legal.
 
 Theorem C01_safe_targets_checkable : forall m, safe_targetsb m = true -> safe_targets m.
 Proof. exact safe_targetsb_ok. Qed.
@@ -77,7 +136,7 @@ Print Assumptions C01_safe_targets_checkable.
 (* the steps the invariant is built from: one event on either engine (also when it fails half-way: rollback) ... *)
 Theorem C01_event_preserves_legality : forall m, wf m = true -> twf m = true -> good_initials m = true -> safe_targets m ->
   forall eng pr ev s, Legal m (s_cfg s) -> Legal m (s_cfg (fst (process_event eng pr m ev s))).
-Proof. exact process_event_inv. Qed.
+Proof. exact InvariantP.process_event_inv. Qed.
 Print Assumptions C01_event_preserves_legality.
 
 (* ... one external transition from an active source to a target that is neither the root nor a history state
@@ -93,7 +152,7 @@ Print Assumptions C01_transition_preserves_legality.
 Theorem C01_transition_effect : forall m eng pr t tgt ev s0 s1,
   exec_external eng pr m t tgt ev s0 = (s1, None) ->
   let d := find_domain m (t_src t) tgt in
-  let xs := rev (sort_by (lt_depth_id m) (exit_set m (s_cfg s0) d tgt)) in
+  let xs := rev (sort_by (lt_depth_id m) (exit_set_h m (s_cfg s0) (s_hist s0) d tgt)) in
   let hist := is_history m tgt in
   let path := if hist then [] else path_to m tgt d in
   let cp := if hist then combined_path m d (resolve_history m (s_hist s0) tgt) else [] in
@@ -116,14 +175,21 @@ Print Assumptions C01_abort_restores.
 
 (* what a transition may remove: active proper descendants of its domain only; out of a parallel domain towards a
    target inside one region, that region only *)
-Theorem C01_exit_confined : forall m C d tgt x,
-  In x (exit_set m C d tgt) -> In x C /\ is_desc m x d = true /\ x <> d.
-Proof. exact exit_set_sub. Qed.
+Theorem C01_exit_confined : forall m C H d tgt x,
+  In x (exit_set_h m C H d tgt) -> In x C /\ is_desc m x d = true /\ x <> d.
+Proof. exact exit_set_h_sub. Qed.
 Print Assumptions C01_exit_confined.
-Theorem C01_exit_region_scoped : forall m C d tgt b x,
-  is_parallel m d = true -> branch_of m d tgt = Some b -> In x (exit_set m C d tgt) -> is_desc m x b = true.
-Proof. exact exit_set_parallel_scoped. Qed.
+Theorem C01_exit_region_scoped : forall m C H d tgt b x,
+  is_history m tgt = false ->
+  is_parallel m d = true -> branch_of m d tgt = Some b -> In x (exit_set_h m C H d tgt) -> is_desc m x b = true.
+Proof. intros m C H d tgt b x Hh. rewrite (exit_set_h_plain m C H d tgt Hh). exact (exit_set_parallel_scoped m C d tgt b x). Qed.
 Print Assumptions C01_exit_region_scoped.
+(* a history target: the regions exited are those holding a state the pseudo-state resolves to, i.e. about to be entered *)
+Theorem C01_exit_region_scoped_history : forall m C H d tgt x,
+  is_history m tgt = true -> is_parallel m d = true -> In x (exit_set_h m C H d tgt) ->
+  exists y b, In y (resolve_history m H tgt) /\ branch_of m d y = Some b /\ is_desc m x b = true.
+Proof. exact exit_set_h_scoped. Qed.
+Print Assumptions C01_exit_region_scoped_history.
 Theorem C01_entry_path_confined : forall m tgt d x,
   In x (path_to m tgt d) -> In x (anc_self m tgt) /\ x <> d.
 Proof. exact path_to_sub. Qed.
@@ -142,6 +208,35 @@ Theorem C01_invariant_refuted :
   legal f5 (s_cfg s0) = true /\ s_cfg s1 = [0] /\ legal f5 (s_cfg s1) = false.
 Proof. vm_compute. auto. Qed.
 Print Assumptions C01_invariant_refuted.
+
+(* the machine of former finding F34 (repaired in /repo, see known_findings.json): a parallel state with a deep-history
+   child h and regions r {x, y}, q {u, v}.  GO (x -> y) records history [q; r; u; x]; BACK (y -> #m.h) used to exit
+   nothing (the exit set was scoped to the history node's own, empty, branch) and to activate x next to y: the
+   illegal configuration {m, q, u, r, x, y}.  The regions about to be restored are now exited first. *)
+Definition f34 : machine := Build_machine
+  [ n_ "m" None KParallel [1; 2; 5] None 0 [];
+    Build_node "m.h" (Some 0) (KHistory true) [] None 1 [] [] [] None [] [] None None;
+    n_ "m.r" (Some 0) KCompound [3; 4] (Some 3) 1 [];
+    n_ "m.r.x" (Some 2) KAtomic [] None 2 [("GO"%string, [Build_trans 0 3 "GO" (TState 4) None [] false false]);
+                                           ("BACK"%string, [Build_trans 1 3 "BACK" (TState 1) None [] false false])];
+    n_ "m.r.y" (Some 2) KAtomic [] None 2 [("BACK"%string, [Build_trans 2 4 "BACK" (TState 1) None [] false false])];
+    n_ "m.q" (Some 0) KCompound [6; 7] (Some 6) 1 [];
+    n_ "m.q.u" (Some 5) KAtomic [] None 2 [];
+    n_ "m.q.v" (Some 5) KAtomic [] None 2 [] ] 10 None.
+Example C01_history_of_active_parallel_restored_legally :
+  wf f34 = true /\
+  let s0 := fst (sync_start f34 (st_init [])) in
+  let s1 := fst (sync_send f34 (Build_event "GO" EPlain 0) s0) in
+  let s2 := fst (sync_send f34 (Build_event "BACK" EPlain 0) s1) in
+  s_cfg s1 = [0; 2; 5; 6; 4] /\ s_cfg s2 = [0; 5; 6; 2; 3] /\ legal f34 (s_cfg s2) = true /\
+  exit_set_h f34 (s_cfg s1) (s_hist s1) 0 1 = [2; 5; 6; 4].
+Proof. vm_compute. repeat split; reflexivity. Qed.
+(* ... and it meets the hypotheses of C01_sync_runs_stay_legal_h (non-vacuity: a machine with history targets) while
+   falling outside C01_sync_runs_stay_legal *)
+Example C01_history_theorem_applies :
+  wf f34 = true /\ twf f34 = true /\ good_initials f34 = true /\ safe_targets_hb f34 = true /\ safe_targetsb f34 = false /\
+  snd (sync_start f34 (st_init [])) = None.
+Proof. vm_compute. repeat split; reflexivity. Qed.
 
 (* non-vacuity: a legal configuration of a machine with a parallel state, and illegal neighbours of it *)
 Definition ex_m : machine := Build_machine
